@@ -47,6 +47,7 @@ def cases(tier, seed):
         q['stages'].insert(0, {'op': 'conv', 'exclude': True, 'cout': 3})
         q['fixed_first'] = True
         progs.append(q)
+    progs += G.gen_special()
     for p in progs:
         fl = G.structure_flags(p) - ({'excluded-layer'} if p.get('fixed_first') else set())
         if fl:
